@@ -379,6 +379,8 @@ def _c09(tier, rng):
     yield ("v3 well-formed vectors: permutations, omissions, explicit X, all decoders", S.accepted3_ops(rng, n), False)
     yield ("v3 explicit-X versus omitted pairs", S.x_vs_omitted3(rng, n // 5), False)
     yield ("v3 classes of spellings of one token set (orders, X written / omitted), compared among themselves", S.spellings3(rng, n // 10), False)
+    yield ("every v3 base vector at the temporal and environmental decoder: optional metrics omitted / all written as X / one written as X",
+           S.omitted_vs_x_all_base3(rng), True)
     yield ("v2 canonical vectors of every group pattern, all decoders", S.accepted2_ops(rng, n), False)
     yield ("all v3 base vectors, permuted", S.base3_permuted(rng, kind="D3"), False)
 
